@@ -16,6 +16,7 @@ takes is certified exactly (`A·X = 1 ∧ X·A = 1`), otherwise the line is `inv
          (the second half is the direct evaluation on the assembled S = U V + R)
   lse n x_0..x_{n-1}            Float execution            -> ok <double>
   lsex n x_0..x_{n-1}           Ext Rat execution (−∞)     -> ok neginf | nan | <double>
+  ldcols / uvrcols              same arguments as ld / uvr; one model call per batch column -> ok L_0.. D_0..
 -/
 namespace BFL.DriverDensity
 open BFL BFL.Proto
@@ -75,6 +76,21 @@ def ld : R String := do
   let D := Vec.eval (density inv x m S)
   pure (join (["ok", ratStr detS] ++ qs.map ratStr ++ outVec outF L ++ outVec outF D))
 
+/-- `ldcols`: the same batch evaluated by one call per column (`logDensityCols`) -/
+def ldcols : R String := do
+  let d ← nat; let b ← nat
+  let x ← matCM rat d b
+  let m ← vec rat d
+  let S ← matCM rat d d
+  done
+  let S := Mat.eval S
+  let eS := mkEntry S
+  if !eS.ok then pure "inv-cert-fail" else
+  let inv := invTable [eS]
+  if Mat.detLU d S ≤ 0 then pure "det-nonpos" else
+  let L := Vec.eval (logDensityCols inv x m S)
+  pure (join (["ok"] ++ outVec outF L ++ outVec outF (Vec.of (fun c => Transc.exp (L c)))))
+
 def readR (nb bs : Nat) (enc : Nat) : R (RNoise Rat nb bs) := do
   if enc == 0 then
     let R0 ← matCM rat bs bs
@@ -112,6 +128,26 @@ def uvr : R String := do
   pure (join (["ok", ratStr a.detS] ++ outVec ratStr a.wd ++ outVec outF L ++ outVec outF D
     ++ [ratStr detD] ++ qs.map ratStr ++ outVec outF Ld ++ outVec outF Dd ++ outMatCM ratStr S))
 
+/-- `uvrcols`: the factorised evaluation by one call per column (`logDensityUVRCols`) -/
+def uvrcols : R String := do
+  let nb ← nat; let bs ← nat; let k ← nat; let b ← nat; let enc ← nat
+  let x ← matCM rat (nb * bs) b
+  let m ← vec rat (nb * bs)
+  let U ← matCM rat (nb * bs) k
+  let V ← matCM rat k (nb * bs)
+  let R ← readR nb bs enc
+  done
+  let eR := match R with
+    | .shared R0 => [mkEntry R0]
+    | .perBlock _ => (List.finRange nb).map fun i => mkEntry (Mat.eval (R.block i))
+  let M := Mat.eval (uvrM (invTable eR) U V R)
+  let tbl := eR ++ [mkEntry M]
+  if !(tbl.all (·.ok)) then pure "inv-cert-fail" else
+  let inv := invTable tbl
+  if R.det * Mat.detLU k M ≤ 0 then pure "det-nonpos" else
+  let L := Vec.eval (logDensityUVRCols inv x m U V R)
+  pure (join (["ok"] ++ outVec outF L ++ outVec outF (Vec.of (fun c => Transc.exp (L c)))))
+
 def lse : R String := do
   let n ← nat
   match n with
@@ -144,6 +180,8 @@ def handle (op : String) (args : List String) : Option String :=
   match op with
   | "ld" => some ((run ld args).getD "bad-args")
   | "uvr" => some ((run uvr args).getD "bad-args")
+  | "ldcols" => some ((run ldcols args).getD "bad-args")
+  | "uvrcols" => some ((run uvrcols args).getD "bad-args")
   | "lse" => some ((run lse args).getD "bad-args")
   | "lsex" => some ((run lsex args).getD "bad-args")
   | _ => none
